@@ -1241,7 +1241,7 @@ fn main() {
         .extra
         .get("n")
         .and_then(|s| s.parse().ok())
-        .unwrap_or(args.tier.pick(24usize, 400usize));
+        .unwrap_or(args.tier.pick(64usize, 400usize));
     let (seed, tier) = (args.seed, args.tier);
     let results = run_cases(n, args.threads, |i| {
         let mut rng = case_rng(seed, "c17", i as u64);
